@@ -60,6 +60,16 @@ def param_kinds(f):
 import re  # noqa: E402
 
 
+def _numeric_dtype(d):
+    """the dtype expression names a numeric type (float, np.float64, 'float', int, ...), not object and not one derived from data"""
+    if d is None:
+        return False
+    if isinstance(d, ast.Constant) and isinstance(d.value, str):
+        return d.value.lower() not in ('o', 'object')
+    nm = d.id if isinstance(d, ast.Name) else (d.attr if isinstance(d, ast.Attribute) else None)
+    return nm in ('float', 'int', 'complex', 'float64', 'float32', 'float_', 'double', 'int64', 'int32', 'int_', 'longdouble', 'single')
+
+
 class SymTaint:
     """Taint through plain (module-level) functions only; class constructors are handled by the check=False rule."""
 
@@ -144,6 +154,16 @@ class SymTaint:
                         elif nm == 'numpy.isscalar':
                             sink = 'numpy.isscalar (answers False for a SymPy scalar)'
                             needs_scalar = True
+                        elif nm in ('numpy.array', 'numpy.asarray', 'numpy.asfarray', 'numpy.ascontiguousarray') and _numeric_dtype(kwarg(x, 'dtype') or (x.args[1] if len(x.args) > 1 else None)):
+                            sink = '%s(..., dtype=%s): coercion to a numeric dtype' % (nm, src(kwarg(x, 'dtype') or x.args[1], 20))
+                        elif nm in ('numpy.float64', 'numpy.float32', 'numpy.float_', 'numpy.double'):
+                            sink = nm + '()'
+                        elif isinstance(x.func, ast.Attribute) and x.func.attr == 'astype' and x.args and _numeric_dtype(x.args[0]):
+                            sink = '.astype(%s): coercion to a numeric dtype' % src(x.args[0], 20)
+                            for (p, k) in self.expr_origin(fi, x.func.value, origin):
+                                if not self.guarded(fi, fs, x.func.value, x, h):
+                                    self.add(summ, p, (sink, self.cond_of(fi, f, fs, x, h), f.key, getattr(x, 'lineno', 0), None))
+                            sink = None
                         if sink:
                             for a in list(x.args) + [k.value for k in x.keywords]:
                                 for (p, k) in self.expr_origin(fi, a, origin):
